@@ -186,7 +186,8 @@ class Link:
         return {'text': self.text, 'href': self.href}
 
     def _clean_href(self, href):
-        origin_match = re.match(r'^([\w+\-]+:)?//[^/]+', href)
+        # The origin ends where the path, the query or the fragment begins.
+        origin_match = re.match(r'^([\w+\-]+:)?//[^/?#]+', href)
         if origin_match:
             return origin_match.group(0).lower() + href[origin_match.end(0):]
         return href
